@@ -66,6 +66,7 @@ func genC02Case(t *rapid.T) C02Case {
 	switch c.Flow {
 	case "sso":
 		s.Req = genValidAuthn(t, spec, s.SP, s.Host)
+		maybePassive(t, &s.Req)
 		switch rapid.IntRange(0, 4).Draw(t, "acsurl") {
 		case 4:
 			// a registered location with something appended: must not be taken for the registered one
@@ -138,6 +139,7 @@ func genC02Case(t *rapid.T) C02Case {
 		c.LogoutTr.Extra = extra()
 	case "reregister":
 		s.Req = genValidAuthn(t, spec, s.SP, s.Host)
+		maybePassive(t, &s.Req)
 		s.Tr = genTransport(t, rapid.SampledFrom([]string{"post", "redirect"}).Draw(t, "transport"))
 		c.Channels = []string{"re-registration"}
 	case "callback":
